@@ -92,7 +92,7 @@ pub fn run_history(rng: Rng, profile: Profile, opts: &HistOpts, out: &mut Outcom
                     done_ops += 1;
                     continue 'outer;
                 }
-                Input::Msg(c, _) | Input::CloseTransport(c) | Input::HandleShutdown(c) | Input::DropFuture(c) => {
+                Input::Msg(c, _) | Input::CloseTransport(c) | Input::HandleShutdown(c) | Input::DropFuture(c) | Input::WriteFault(c) => {
                     // nothing can be sent by a connection after its own termination
                     if terminated.contains(c) {
                         continue;
@@ -120,6 +120,8 @@ pub fn run_history(rng: Rng, profile: Profile, opts: &HistOpts, out: &mut Outcom
                 Input::DropFuture(_) => "op:DropFuture".into(),
                 Input::BrokerShutdown => "op:BrokerShutdown".into(),
                 Input::Connect(_) => "op:Connect".into(),
+                Input::WriteFault(_) => "op:WriteFault".into(),
+                Input::EndOfBurst => "op:EndOfBurst".into(),
             };
             out.count(&name, 1);
         }
@@ -264,7 +266,7 @@ fn teardown(rig: &mut Rig, gen: &mut Gen, opts: &HistOpts, out: &mut Outcome) ->
     }
     // end every connection in a random way, then idle shutdown
     loop {
-        let alive: Vec<usize> = (0..rig.model().conns.len()).filter(|&c| rig.model().conns[c].state == ConnState::Alive).collect();
+        let alive: Vec<usize> = (0..rig.model().conns.len()).filter(|&c| matches!(rig.model().conns[c].state, ConnState::Alive | ConnState::Mute)).collect();
         if alive.is_empty() {
             break;
         }
@@ -361,9 +363,11 @@ pub enum Way {
     TransportClosed,
     HandleShutdown,
     FutureDropped,
+    /// half-open transport: the connection task's writes towards the client fail
+    WriteFault,
 }
 
-pub const WAYS: [Way; 4] = [Way::ClientShutdown, Way::TransportClosed, Way::HandleShutdown, Way::FutureDropped];
+pub const WAYS: [Way; 5] = [Way::ClientShutdown, Way::TransportClosed, Way::HandleShutdown, Way::FutureDropped, Way::WriteFault];
 
 #[derive(Clone, Copy, Debug)]
 pub struct FaultPlan {
@@ -436,6 +440,7 @@ pub fn run_fault(seed_rng: Rng, profile: Profile, plan: Option<FaultPlan>, out: 
                 Way::TransportClosed => Input::CloseTransport(v),
                 Way::HandleShutdown => Input::HandleShutdown(v),
                 Way::FutureDropped => Input::DropFuture(v),
+                Way::WriteFault => Input::WriteFault(v),
             };
             let mut own: Vec<Input> = Vec::new();
             if p.queued > 0 {
@@ -460,7 +465,7 @@ pub fn run_fault(seed_rng: Rng, profile: Profile, plan: Option<FaultPlan>, out: 
                 res.mismatch = Some(e);
             }
             // a dropped task is only noticed at the next delivery attempt: provoke one
-            if res.mismatch.is_none() && rig.dx.panics.is_empty() && p.way == Way::FutureDropped {
+            if res.mismatch.is_none() && rig.dx.panics.is_empty() && matches!(p.way, Way::FutureDropped | Way::WriteFault) {
                 if let Err(e) = provoke_delivery(&mut rig, &mut gen, v, out) {
                     res.mismatch = Some(e);
                 }
@@ -477,7 +482,7 @@ pub fn run_fault(seed_rng: Rng, profile: Profile, plan: Option<FaultPlan>, out: 
                     rig.connect(ver);
                     continue;
                 }
-                if matches!(inp, Input::DropFuture(_)) {
+                if matches!(inp, Input::DropFuture(_) | Input::WriteFault(_)) {
                     continue;
                 }
                 let r = rig.burst(&[inp]).and_then(|_| check_books(&mut rig, out));
@@ -545,7 +550,7 @@ fn provoke_delivery(rig: &mut Rig, gen: &mut Gen, v: usize, out: &mut Outcome) -
         return Err(Mismatch {
             what: "dropped-connection-not-released".into(),
             kind: "disconnect".into(),
-            detail: format!("connection #{} (task dropped) is still in the broker's books after a delivery to it was attempted", v),
+            detail: format!("connection #{} (task dropped or transport half-open) is still in the broker's books after a delivery to it was attempted", v),
         });
     }
     Ok(())
